@@ -369,6 +369,74 @@ def layer_same_tag_text_under_two_bindings(ctx, n):
             ctx.violation('tag-read-under-the-binding-of-another-occurrence', 'template %r\n  rendered %r\n  expected %r' % (src, got, want), {'src': src, 'cfg': {}})
 
 
+def layer_case_variant_names(ctx, n):
+    """XML names are case-sensitive: a prefix that differs from a template prefix only in case is another prefix.  One start
+    tag carries a template statement (or declaration) and an ordinary attribute (or declaration) whose name is its case
+    variant: the first is executed and dropped, the second is copied."""
+    rng = ctx.rng
+    for case in range(n):
+        ns = rng.choice(['tal', 'i18n', 'metal'])
+        a, b = rng.choice([('T', 't'), ('t', 'T'), ('Tal', 'tal'), ('x', 'X'), ('I18N', 'i18n')])
+        stmt, val, new = {'tal': rng.choice([('content', "'X'", 'X'), ('omit-tag', 'False', 'old'), ('condition', 'True', 'old')]),
+                          'i18n': ('domain', 'd', 'old'), 'metal': ('define-macro', 'cv%d' % case, 'old')}[ns]
+        decls = [' xmlns:%s="%s"' % (a, NS[ns]), ' xmlns:%s="urn:example:other"' % b]
+        attrs = [' %s:%s="%s"' % (a, stmt, val), ' %s:%s="kept"' % (b, stmt), ' %s:other="o"' % b]
+        rng.shuffle(decls)
+        rng.shuffle(attrs)
+        on_item = rng.random() < .4        # declarations on the element itself
+        src = '<doc%s><item%s%s>old</item></doc>' % ('' if on_item else ''.join(decls), ''.join(decls) if on_item else '', ''.join(attrs))
+        kd = [d for d in decls if 'urn:example:other' in d]
+        ka = [x for x in attrs if not x.startswith(' %s:%s=' % (a, stmt))]
+        want = '<doc%s><item%s%s>%s</item></doc>' % ('' if on_item else ''.join(kd), ''.join(kd) if on_item else '', ''.join(ka), new)
+        got = render(src)
+        ctx.mon('case-variant-names-compared')
+        ctx.case(key=('case-variant', ns, stmt, a, b, on_item, tuple(attrs)), nontrivial=True)
+        if got != want:
+            ctx.violation('name-differing-only-in-case-treated-as-the-template-name', 'template %r\n  rendered %r\n  expected %r' % (src, got, want),
+                          {'src': src, 'cfg': {}})
+
+
+def layer_attrs_builtin(ctx, n):
+    """`attrs` (the attributes of the element as written) is the one place where a template can look at its own start
+    tag: rendered whole - through tal:attributes or ${...} - it never carries a template statement or a declaration of
+    a template namespace, whatever kind of element it is read on (also the element that uses or defines a macro)."""
+    rng = ctx.rng
+    for case in range(n):
+        pre = {k: rng.choice([k, ALT[k]]) for k in NS}
+        decls = ''.join(' xmlns:%s="%s"' % (pre[k], NS[k]) for k in ('tal', 'metal', 'i18n'))
+        kind = rng.choice(['plain', 'statements', 'use-macro', 'define-macro', 'fill-slot', 'use-macro', 'extend'])
+        own = rng.random() < .6 and kind != 'fill-slot'        # the declarations stand on the element itself
+        static = rng.choice([' class="c" id="e%d"' % case, ' title="t"', ' class="c" xmlns:f="urn:f" f:a="1"'])
+        show = '<b %s:attributes="pa"/>${sorted(pa)}' % pre['tal']
+        T, M, I = pre['tal'], pre['metal'], pre['i18n']
+        lib = '<m%s %s:define-macro="lib%d"><i %s:define-slot="s">d</i></m>' % (' xmlns:%s="%s"' % (M, NS['metal']) if own else '', M, case, M)
+        if kind == 'plain':
+            el = '<div%s%%s %s:define="pa attrs">%s</div>' % (static, T, show)
+        elif kind == 'statements':
+            el = '<div%s%%s %s:define="pa attrs" %s:condition="c" %s:domain="d" %s:attributes="k x">%s</div>' % (static, T, T, I, T, show)
+        elif kind == 'use-macro':
+            el = '<div%s%%s %s:use-macro="template.macros[\'lib%d\']" %s:define="pa attrs"><u %s:fill-slot="s">%s</u></div>' % (static, M, case, T, M, show)
+        elif kind == 'define-macro':
+            el = '<div%s%%s %s:define-macro="dm%d" %s:define="pa attrs">%s</div>' % (static, M, case, T, show)
+        elif kind == 'fill-slot':
+            el = '<div %s:use-macro="template.macros[\'lib%d\']"><u%s%%s %s:fill-slot="s" %s:define="pa attrs">%s</u></div>' % (M, case, static, M, T, show)
+        else:
+            el = '<div%s%%s %s:define-macro="ex%d" %s:extend-macro="template.macros[\'lib%d\']" %s:define="pa attrs"><u %s:fill-slot="s">%s</u></div>' % (
+                static, M, case, M, case, T, M, show)
+        src = '<root%s>%s%s</root>' % ('' if own else decls, lib, el % (decls if own else ''))
+        out = render(src)
+        ctx.mon('attrs-builtin-rendered')
+        ctx.case(key=('attrs', kind, own, static, tuple(sorted(pre.items()))), nontrivial=True)
+        if out.startswith('RAISED'):
+            ctx.violation('attrs-builtin-' + out.split(':')[0].replace(' ', '-'), 'template %r: %s' % (src, out), {'src': src, 'cfg': {}})
+            continue
+        lk = leak_scan(out, set(NS) | set(ALT.values()))
+        text_leak = [u for u in LANG_URIS if u in out] + [w for w in ('define-macro', 'use-macro', 'fill-slot', 'extend-macro', ':define', ':attributes') if w in out]
+        if lk or text_leak:
+            ctx.violation('template-markup-visible-through-attrs', 'template %r\n  rendered %r\n  template markup in the output: %r' % (src, out, lk + text_leak),
+                          {'src': src, 'cfg': {}})
+
+
 def layer_load_chain_options(ctx, n):
     """Pages (file templates) of one directory that pull in a shared template through load:, created with and
     without enable_data_attributes, in every order and all kept alive: each page's own option decides how the shared
@@ -417,6 +485,8 @@ def run(ctx):
     monitors.install(ctx, tokalg=False)
     layer_load_chain_options(ctx, 10 if ctx.quick else 150)
     layer_same_tag_text_under_two_bindings(ctx, 30 if ctx.quick else 400)
+    layer_case_variant_names(ctx, 30 if ctx.quick else 400)
+    layer_attrs_builtin(ctx, 30 if ctx.quick else 400)
     rng = ctx.rng
     n = 250 if ctx.quick else 4000
     for case in range(n):
